@@ -119,16 +119,20 @@ C19_ENTRIES = {'cJSONUtils_SortObjectCaseSensitive', 'cJSONUtils_SortObject'}
 
 
 def run_C15(ctx, R):
-    from .rules import tab, out
+    from .rules import tab, out, utilsx, bnd3
     _scoped(ctx, R, tab.tab8, C15_ENTRIES, 1)
     _per_config(ctx, R, tab.tab9)
     _scoped(ctx, R, tab.tab11, C15_ENTRIES, 3)
     _scoped(ctx, R, out.out5, C15_ENTRIES | {'cJSONUtils_GeneratePatches'}, 3)
     _scoped(ctx, R, out.out7, C15_ENTRIES, 4)
+    _scoped(ctx, R, utilsx.tab18, C15_ENTRIES, 1)
+    _scoped(ctx, R, bnd3.bnd3_pointer, C15_ENTRIES, 30)
 
 
 def run_C16(ctx, R):
-    from .rules import tab, lst, out
+    from .rules import tab, lst, out, utilsx
+    _scoped(ctx, R, utilsx.tab18, C16_ENTRIES, 3)
+    _scoped(ctx, R, utilsx.ord1, C16_ENTRIES, 3)
     _per_config(ctx, R, tab.tab12)
     _per_config(ctx, R, tab.tab10)
     _scoped(ctx, R, tab.tab11, C16_ENTRIES, 25)
@@ -294,7 +298,7 @@ PROPERTIES = {
                         'data races through trees deliberately shared by the caller'],
     },
     'C15': {
-        'run': run_C15, 'modules': ['utils'],
+        'run': run_C15, 'modules': ['utils', 'parse'],
         'explanation':
             "Structural necessary conditions of RFC 6901 resolution and of pointer construction, on every function "
             "reachable from the pointer entry points. TAB8: every two-sided range test with literal bounds bounds one and "
